@@ -98,8 +98,15 @@ func (g *GlobalTransactionManager) Commit(ctx context.Context, gtr *GlobalTransa
 		bf.Wait()
 	}
 
-	if err != nil || bf.Err() != nil {
-		lastErr := errors.Wrap(err, bf.Err().Error())
+	if err != nil || res == nil {
+		// no acknowledgement: retries exhausted, or the context ended before a request could be sent
+		lastErr := bf.Err()
+		if lastErr == nil {
+			lastErr = errors.New("global commit request got no response")
+		}
+		if err != nil {
+			lastErr = errors.Wrap(err, lastErr.Error())
+		}
 		log.Warnf("send global commit request failed, xid %s, error %v", gtr.Xid, lastErr)
 		return lastErr
 	}
@@ -140,8 +147,15 @@ func (g *GlobalTransactionManager) Rollback(ctx context.Context, gtr *GlobalTran
 		bf.Wait()
 	}
 
-	if err != nil && bf.Err() != nil {
-		lastErr := errors.Wrap(err, bf.Err().Error())
+	if err != nil || res == nil {
+		// no acknowledgement: retries exhausted, or the context ended before a request could be sent
+		lastErr := bf.Err()
+		if lastErr == nil {
+			lastErr = errors.New("global rollback request got no response")
+		}
+		if err != nil {
+			lastErr = errors.Wrap(err, lastErr.Error())
+		}
 		log.Errorf("GlobalRollbackRequest rollback failed, xid %s, error %v", gtr.Xid, lastErr)
 		return lastErr
 	}
